@@ -118,7 +118,7 @@ var c08Runtime = []string{
 // H_C08_runtime: a compiled Expression only ever reports run-time categories,
 // exactly one of them, with a nil result.
 func H_C08_runtime() {
-	vrtSpec(2, 2, 1, "a,b", smASCII, nfInt|nfFrac, 0)
+	vrtSpec(tq(2, 3), 2, 1, "a,b", smASCII, nfInt|nfFrac, 0)
 	vrtNumRange(-2, 2)
 	expr := c08Runtime[vrtChoose("expr", len(c08Runtime))]
 	vrtNote("template:" + expr)
